@@ -32,6 +32,11 @@ func runC08(c *Ctx) {
 	// R08.6 (reused receive buffer) is R07.5, evaluated here as well because
 	// the property names types ResetVT explicitly.
 	r07_5(c, "R08.6")
+	// publish before announce: the pipe an answer will be routed to exists
+	// before the request that can trigger the answer is sent (shared with C07);
+	// likewise the sender registers an id before the STAT that announces it
+	r07_3(c, "R08.7")
+	r06_1(c, "R08.8")
 }
 
 // R08.1: all sends are serialised.
